@@ -20,6 +20,7 @@ type Node struct {
 	sortMode int // 0 none, 1 length-first, 2 bytewise
 	sorted   bool
 	name     string
+	neg      *Term // ints only: symbolic sign (major type 1 iff neg); nil = major as stated
 }
 
 func (e *Engine) newNode(major int, arg *Term) *Node {
@@ -81,6 +82,9 @@ func (e *Engine) headByte(n *Node, i int) *Term {
 			low = tt.Ite(tt.Eq(w, tt.BVu(2, 8)), tt.BVu(25, 5), low)
 			low = tt.Ite(tt.Eq(w, tt.BVu(1, 8)), tt.BVu(24, 5), low)
 			low = tt.Ite(tt.Eq(w, tt.BVu(0, 8)), tt.Extract(n.arg, 4, 0), low)
+		}
+		if n.neg != nil {
+			return tt.Concat(tt.Ite(n.neg, tt.BVu(1, 3), tt.BVu(0, 3)), low)
 		}
 		return tt.Concat(tt.BVu(uint64(n.major), 3), low)
 	}
@@ -202,4 +206,17 @@ func (e *Engine) nodeString(n *Node, d int) string {
 		return fmt.Sprintf("simple(%s)%s", n.arg, w)
 	}
 	return "?"
+}
+
+// fixMajor resolves a symbolic integer sign (forks if both signs are feasible).
+func (e *Engine) fixMajor(n *Node) *Node {
+	if n.neg != nil {
+		if e.branch(n.neg) {
+			n.major = 1
+		} else {
+			n.major = 0
+		}
+		n.neg = nil
+	}
+	return n
 }
